@@ -15,6 +15,7 @@ line = `<list> width indent haspen pen`.
 * `txt <sparse codes: n (c v)*> <glue spaceskip> <glue xspaceskip> space stretch shrink extra lead <nwords> (<n> chars)*`
       → per word `sf-before has [tag glue]x3` for new model, old model, spec (tag 0 = value, 1 = panic/none)
 * `spl <n> (0 | 1 <n> chars)* <nwords> (<n> chars)*` → `1`/`0`
+* `dfl` → plain TeX's defaults: `<n> (c sfcode)* interline club widow broken <glue left> <glue right> <glue parfill> <glue spaceskip> <glue xspaceskip>`
 -/
 open C12 Proto
 
@@ -257,6 +258,13 @@ def handle (line : String) : String :=
       | [] => none) with
     | some (items, words) => if spell items = words.filter (fun w => !w.isEmpty) then "1" else "0"
     | none => "bad-request"
+  | ["dfl"] =>
+    let sparse := ((List.range 256).filter fun (c : Nat) => plainSfCode c != 1000).map
+      fun (c : Nat) => [Int.ofNat c, plainSfCode c]
+    showInts ([(sparse.length : Int)] ++ sparse.flatten ++
+      [plainParams.interLine, plainParams.club, plainParams.widow, plainParams.broken] ++
+      encGlue plainParams.leftSkip ++ encGlue plainParams.rightSkip ++ encGlue plainParFill ++
+      encGlue plainTextParams.spaceSkip ++ encGlue plainTextParams.xspaceSkip)
   | _ => "bad-request"
 
 end DrvC12
